@@ -17,7 +17,13 @@ ARC_TASK_IMPL = r"^acts::scheduler::process::task::<impl acts::scheduler::ActTas
 def engine(cx):
     def make():
         tables = task_state_tables(cx.m)
-        return T.TS(cx.m, tables), tables
+        eng = T.TS(cx.m, tables)
+        if cx.tier == "thorough":
+            # deeper inlining and one more level of handler nesting
+            eng.maxdepth = 13
+            eng.handler_nesting = 3
+            eng.budget = 3000000
+        return eng, tables
     return cx.shared("ts", make)
 
 
